@@ -29,6 +29,10 @@ Definition kind_of {A} (r : res A) : kind :=
   | Ok _ => KOk | Err _ => KErr | Sig x => KSig x | Panic => KPanic | Fuel => KFuel | Unsupp => KUnsupp
   end.
 
+(* the outcomes after which Go code simply goes on: a value, or a signal that a loop, a call
+   or the rule loop handles *)
+Definition soft (k : kind) : Prop := match k with KOk | KSig _ => True | _ => False end.
+
 Definition ok_or_panic {A} (m : M A) : Prop :=
   forall s r s', m s = (r, s') -> kind_of r = KOk \/ kind_of r = KPanic.
 
@@ -58,11 +62,12 @@ Section Defs.
   (* what is done with a caught outcome: handled by a respectful computation, or
      re-raised as it is *)
   Definition handler {A B} (h : res A -> M B) : Prop :=
-    forall r, (kind_of r <> KPanic /\ sat (h r)) \/ (kind_of r <> KOk /\ h r = reraise r).
+    forall r, (soft (kind_of r) /\ sat (h r)) \/ (kind_of r <> KOk /\ h r = reraise r).
 
   Record inv_base : Prop := {
     ok_refl : forall s k, I s -> k <> KErr -> Q s k s;
-    ok_trans : forall s k1 s1 k2 s2, k1 <> KPanic -> Q s k1 s1 -> Q s1 k2 s2 -> Q s k2 s2;
+    ok_trans : forall s k1 s1 k2 s2, soft k1 -> Q s k1 s1 -> Q s1 k2 s2 -> Q s k2 s2;
+    ok_to_panic : forall s k s', Q s k s' -> Q s KPanic s';
     ok_upd_heap : forall f, sat (upd_heap f);
     ok_with_heap : forall A (f : heap -> A * heap), sat (with_heap f);
     ok_set_local : forall name a, sat (set_local name a);
@@ -71,7 +76,8 @@ Section Defs.
     ok_set_rule_root : forall a, sat (set_rule_root a);
     ok_set_root : forall a, sat (set_root a);
     ok_emit : forall b, sat (emit b);
-    ok_log_io : forall evs, sat (log_io evs);
+    ok_note_signal : forall t, sat (note_signal t);
+    ok_log_io : forall evs : list io_ev, sat (log_io (map io_of evs));   (* the reads of the decoder *)
     ok_raise : forall A e, sat (@raise_err A e)
   }.
 
@@ -242,7 +248,7 @@ Section Walk.
     intros Hm Hk s r s' HI H. apply bind_inv in H.
     destruct H as [(a & s1 & H1 & H2) | (r0 & H1 & Hn & Hkd)].
     - destruct (Hm _ _ _ HI H1) as [HI1 HQ1]. destruct (Hk a _ _ _ HI1 H2) as [HI2 HQ2].
-      split; [assumption|]. eapply (ok_trans _ _ OK); [|exact HQ1|exact HQ2]. discriminate.
+      split; [assumption|]. eapply (ok_trans _ _ OK); [|exact HQ1|exact HQ2]; exact Logic.I.
     - destruct (Hm _ _ _ HI H1) as [HI1 HQ1]. split; [assumption|]. rewrite Hkd. assumption.
   Qed.
 
@@ -286,18 +292,16 @@ Section Walk.
       destruct (Hb _ _ _ HI1 Hbs) as [HI2 HQ2].
       destruct H as [(Hn & Hk & Hs) | (Hk & rc & s3 & Hbd & H)].
       + subst s'. split; [assumption|]. rewrite Hk.
-        eapply (ok_trans _ _ OK); [|exact HQ1|exact HQ2]. discriminate.
+        eapply (ok_trans _ _ OK); [|exact HQ1|exact HQ2]; exact Logic.I.
       + rewrite Hk in HQ2.
         assert (HQ02 : Q s KOk s2).
-        { eapply (ok_trans _ _ OK); [|exact HQ1|exact HQ2]. discriminate. }
+        { eapply (ok_trans _ _ OK); [|exact HQ1|exact HQ2]; exact Logic.I. }
         destruct (Hbody _ _ _ HI2 Hbd) as [HI3 (r0 & Hrc & HQ3)]. subst rc.
         assert (HQ03 : Q s (kind_of r0) s3).
-        { eapply (ok_trans _ _ OK); [|exact HQ02|exact HQ3]. discriminate. }
+        { eapply (ok_trans _ _ OK); [|exact HQ02|exact HQ3]; exact Logic.I. }
         destruct H as [(Hpp & Hs & Hkp) | (s4 & Hpp & Hh4)].
         * subst s'. split; [assumption|]. rewrite Hkp.
-          destruct r0 as [x|e|x| | |]; try exact HQ03;
-            (eapply (ok_trans _ _ OK); [|exact HQ03|apply (ok_refl _ _ OK); [assumption|discriminate]];
-             discriminate).
+          exact (ok_to_panic _ _ OK _ _ _ HQ03).
         * destruct (Hpop _ _ _ _ HI3 HQ03 Hpp) as [HI4 HQ04].
           destruct (Hh r0) as [[Hnp Hs] | [Hno He]].
           -- destruct (Hs _ _ _ HI4 Hh4) as [HI5 HQ5]. split; [assumption|].
@@ -326,7 +330,7 @@ Section Walk.
       match goal with |- I ?s2 /\ _ => assert (Ha : I s2 /\ Q s1 KOk s2) end.
       { apply (sat_m_alloc (VNil None) s1 (Ok (next (hp s1)))); [assumption|apply m_alloc_eq]. }
       destruct Ha as [HI2 HQ2]. split; [assumption|]. eexists; split; [reflexivity|]. cbn.
-      eapply (ok_trans _ _ OK); [|exact HQ1|exact HQ2]. discriminate.
+      eapply (ok_trans _ _ OK); [|exact HQ1|exact HQ2]; exact Logic.I.
     - inversion H; subst. split; [assumption|]. eexists; split; [reflexivity|]. assumption.
     - inversion H; subst. split; [assumption|]. eexists; split; [reflexivity|]. assumption.
     - inversion H; subst. split; [assumption|]. eexists; split; [reflexivity|]. assumption.
@@ -372,6 +376,7 @@ Section Walk.
       | apply (ok_set_local _ _ OK) | apply (ok_set_global _ _ OK)
       | apply (ok_set_retval _ _ OK) | apply (ok_set_rule_root _ _ OK)
       | apply (ok_set_root _ _ OK) | apply (ok_emit _ _ OK) | apply (ok_log_io _ _ OK)
+      | apply (ok_note_signal _ _ OK)
       | apply (ok_raise _ _ OK)
       | apply sat_fail; kind_neq ].
 
@@ -400,7 +405,7 @@ Section Walk.
     let x := fresh "x" in
     intros r; destruct r as [?|?|x| | |]; try destruct x;
     first [ right; split; [kind_neq | reflexivity]
-          | left; split; [kind_neq | walk_with extra] ].
+          | left; split; [exact Logic.I | walk_with extra] ].
 
   (* ---------------- non-recursive helpers of Sem/Eval.v and Sem/Natives.v *)
 
@@ -748,10 +753,10 @@ Section Walk.
     apply sat_bind; [apply (ok_set_rule_root _ _ OK)|intros _].
     apply sat_catch; [apply (as_expr _ _ _ _ (all_sat_n sel [] false n))|].
     intros r. destruct r as [c|e0|x| | |].
-    - left. split; [kind_neq|walk].
+    - left. split; [exact Logic.I|walk].
     - right. split; [kind_neq|reflexivity].
     - destruct x; first [ right; split; [kind_neq|reflexivity]
-                        | left; split; [kind_neq|cbn [stray]; walk] ].
+                        | left; split; [exact Logic.I|cbn [stray]; walk] ].
     - right. split; [kind_neq|reflexivity].
     - right. split; [kind_neq|reflexivity].
     - right. split; [kind_neq|reflexivity].
@@ -781,10 +786,10 @@ Section Walk.
       apply sat_bind; [apply (ok_set_rule_root _ _ OK)|intros _].
       apply sat_catch; [apply (as_stmt _ _ _ _ (all_sat_n src (pfuncs prog) fuzzing n))|].
       intros r0. destruct r0 as [c|e0|x| | |].
-      - left. split; [kind_neq|assumption].
+      - left. split; [exact Logic.I|assumption].
       - right. split; [kind_neq|reflexivity].
       - destruct x; first [ right; split; [kind_neq|reflexivity]
-                          | left; split; [kind_neq|cbn [stray]; walk] ].
+                          | left; split; [exact Logic.I|cbn [stray]; walk] ].
       - right. split; [kind_neq|reflexivity].
       - right. split; [kind_neq|reflexivity].
       - right. split; [kind_neq|reflexivity].
